@@ -548,7 +548,7 @@ def check_C05(ctx):
     trace = os.path.join(ctx.work, "parse.ndjson")
     if os.path.exists(trace):
         os.remove(trace)
-    args = ["trace-parse", "inputs=fixtures-all,gen:%d,gen:%d:stable,proposals:%d" % (60 if q else 1500, 20 if q else 500, 3 if q else 40), "n=%d" % n, "seed=%d" % ctx.seed, "out=" + trace]
+    args = ["trace-parse", "inputs=fixtures-all,badnames,gen:%d,gen:%d:stable,proposals:%d" % (60 if q else 1500, 20 if q else 500, 3 if q else 40), "n=%d" % n, "seed=%d" % ctx.seed, "out=" + trace]
     crashes = []
     start = 0
     for attempt in range(50):
